@@ -90,7 +90,7 @@ def run_trainer_history(ctx, desc, prop, pre_seq, post_seq, rewards, extra_check
     name = desc["trainer"]
     a, b = SIGNS[desc["signs"]]
     hyper = {"lr_a": a, "lr_b": b, "trace_mode": desc.get("trace_mode", "cumulative"), "delayed": desc.get("delayed", False)}
-    for k in ("lr_a3", "lr_b3", "tensor_kwargs", "tc_a", "tc_b", "tc_a_slow", "tc_b_slow", "tc_elig", "inplace", "interp_tolerance"):
+    for k in ("lr_a3", "lr_b3", "tensor_kwargs", "tc_a", "tc_b", "tc_a_slow", "tc_b_slow", "tc_elig", "inplace", "interp_tolerance", "kernel"):
         if k in desc:
             hyper[k] = desc[k]
     if "mag" in desc:
